@@ -172,20 +172,20 @@ class Program:
                     self.inlined.setdefault("<moved back>", []).extend(mv)
             except Exception as e:
                 self.expansion_errors.append(f"<moves>: {type(e).__name__}: {e}")
-            # (0a) helpers of modules that did not exist are analysed in the module that imports them
-            try:
-                pn = inline.pull_in_new_modules({n: m.tree for n, m in self.modules.items()})
-                if pn:
-                    self.inlined.setdefault("<new modules>", []).extend(pn)
-            except Exception as e:
-                self.expansion_errors.append(f"<new modules>: {type(e).__name__}: {e}")
-            # (0b) methods moved into a new base class / mixin come back into the class that had them
+            # (0a) methods moved into a new base class / mixin come back into the class that had them
             try:
                 mx = inline.undo_mixins({n: m.tree for n, m in self.modules.items()})
                 if mx:
                     self.inlined.setdefault("<mixins merged>", []).extend(mx)
             except Exception as e:
                 self.expansion_errors.append(f"<mixins>: {type(e).__name__}: {e}")
+            # (0b) helpers of modules that did not exist are analysed in the module that imports them
+            try:
+                pn = inline.pull_in_new_modules({n: m.tree for n, m in self.modules.items()})
+                if pn:
+                    self.inlined.setdefault("<new modules>", []).extend(pn)
+            except Exception as e:
+                self.expansion_errors.append(f"<new modules>: {type(e).__name__}: {e}")
             # (1) functions that were merely renamed get their original names back
             try:
                 rn = inline.undo_renames({n: m.tree for n, m in self.modules.items()})
